@@ -276,7 +276,14 @@ def check_transform_chunk(ck):
                 v = n.ast.value
                 for t in n.ast.targets:
                     if isinstance(t, ast.Name):
-                        env["@def:" + t.id] = "buffer" if q.is_call(v, "self._gzip_value.getvalue") else "other"
+                        # what the local holds: the buffer content, the untouched parameter (directly or through
+                        # another such local), or something else
+                        if q.is_call(v, "self._gzip_value.getvalue"):
+                            env["@def:" + t.id] = "buffer"
+                        elif isinstance(v, ast.Name) and (v.id == chunk or env.get("@def:" + v.id) == "param") and t.id != chunk:
+                            env["@def:" + t.id] = "param"
+                        else:
+                            env["@def:" + t.id] = "other"
             if isinstance(n.ast, ast.Return):
                 env["@ret"] = q.dotted(n.ast.value) if n.ast.value is not None else None
         return None
@@ -294,11 +301,12 @@ def check_transform_chunk(ck):
             for seq, ret, rdef, empty, partial in sorted({(env.get("@seq"), env.get("@ret"), env.get("@def:%s" % env.get("@ret")), (chunk, False) in _f, env.get("@partial")) for _f, env in exits}, key=repr):
                 env = {"@partial": partial}
                 calls = [(o, m) for o, m, _a in seq]
-                if gz and not finishing and empty and seq == () and ret == chunk and rdef is None:
+                unchanged = (ret == chunk and rdef is None) or rdef == "param"  # the parameter itself, possibly via a result variable
+                if gz and not finishing and empty and seq == () and unchanged:
                     OB(ck, env, "C29.stream-discipline", fi, fi.node, True, "an empty, non-final chunk may be passed through without touching the stream (%s)" % label)
                     continue
                 if not gz:
-                    OB(ck, env, "C29.stream-discipline", fi, fi.node, seq == () and ret == chunk and rdef is None, "not compressing: the chunk is returned unchanged and the gzip objects are not touched (%s)" % label,
+                    OB(ck, env, "C29.stream-discipline", fi, fi.node, seq == () and unchanged, "not compressing: the chunk is returned unchanged and the gzip objects are not touched (%s)" % label,
                           construct="identity broken: calls=%s" % (calls,))
                     continue
                 want_end = ("file", "close") if finishing else ("file", "flush")
@@ -354,14 +362,8 @@ def check_flag_sources(ck):
             continue
         for st in q.stores_to(fi.node, FLAG):
             ck.ob("C29.only-when-allowed", fi, st, False, "only __init__ and transform_first_chunk decide whether to compress")
-    if ck.repo.has_func(WEB, GZ + "._compressible_type"):
-        ct = F(ck, WEB, GZ + "._compressible_type")
-        p = [x for x in ct.params() if x != "self"]
-        for r in [n for n in q.walk_body(ct.node) if isinstance(n, ast.Return)]:
-            v = r.value
-            parts = q.split_disj(v) if v is not None else []
-            ok = bool(parts) and bool(p) and all(p[0] in q.names_in(x) for x in parts) and not any(isinstance(x, ast.Constant) for x in parts)
-            ck.ob("C29.only-when-allowed", ct, r, ok, "every alternative of the compressibility test depends on the content type (text/* or the whitelist)")
+    # (whether the compressibility test really depends on the content type is decided by the content-type probes of
+    # transform_first_chunk — a syntactic look at _compressible_type's return expressions adds nothing and is brittle)
 
 
 def check_application(ck):
